@@ -58,7 +58,8 @@ def gen_env_cfg(rng, *, multi=None, big=False, padding=None, positive=True, huge
             "num_machines": [mlo, mhi],
             "duration_range": [1, rng.randint(1, 9)],
             "allow_recirculation": rng.random() < 0.3,
-            "machines_per_operation": [rng.randint(1, mpo_hi), mpo_hi] if rng.random() < 0.4 else 1,
+            # a range, or one int k: exactly k eligible machines per operation
+            "machines_per_operation": ([rng.randint(1, mpo_hi), mpo_hi] if rng.random() < 0.7 else mpo_hi) if rng.random() < 0.4 else 1,
             "seed": rng.randrange(1 << 20) if rng.random() < 0.7 else None,
             # the generator's own iteration protocol (a limit for `for instance in generator`) is none of the
             # environment's business: reset() must build an episode every time
@@ -382,6 +383,11 @@ def contract_oracles(w, obs, when):
         except Exception as e:  # noqa: BLE001
             ok = False
         ctx.check(ok, "observation_in_space", lambda: f"{when}: observation_space.contains(obs) is False (shapes {shapes})", key="contains")
+    if when.startswith("reset"):
+        # a new episode: nothing is scheduled, so the current graph is the graph as built for the instance
+        want_nodes, want_edges = graph_spec(w.jobs, w.cfg["builder"])
+        ctx.check(n_nodes == len(want_nodes) and not any(bool(x) for x in g.removed_nodes) and sorted(edges) == sorted(want_edges), "reset_graph_is_the_built_graph",
+                  lambda: f"{when}: the episode starts with {n_nodes} nodes ({sum(bool(x) for x in g.removed_nodes)} removed) and {len(edges)} edges; the {w.cfg['builder']} graph of the instance has {len(want_nodes)} nodes and {len(want_edges)} edges")
     # removed-node mask
     rn = np.asarray(obs["removed_nodes"])
     real = [bool(x) for x in rn[:n_nodes].tolist()]
@@ -460,6 +466,13 @@ def multi_config_oracle(w, when):
     gen = cfg["gen"]
     nj, nm = len(w.jobs), w.model.nm
     ctx.check(gen["num_jobs"][0] <= nj <= gen["num_jobs"][1], "multi_env_instance_in_ranges", lambda: f"{when}: instance has {nj} jobs, generator range {gen['num_jobs']}")
+    mpo = gen["machines_per_operation"]
+    lo, hi = (mpo, mpo) if isinstance(mpo, int) else mpo
+    bad = [(j, p, list(ms)) for j, job in enumerate(w.jobs) for p, (ms, _) in enumerate(job) if not (lo <= len(ms) <= hi) or len(set(ms)) != len(ms)]
+    ctx.check(not bad, "multi_env_instance_in_ranges", lambda: f"{when}: operations {bad[:4]} do not have between {lo} and {hi} distinct eligible machines (machines_per_operation={mpo})")
+    dlo, dhi = gen["duration_range"]
+    badd = [(j, p, d) for j, job in enumerate(w.jobs) for p, (_, d) in enumerate(job) if not (dlo <= d <= dhi)]
+    ctx.check(not badd, "multi_env_instance_in_ranges", lambda: f"{when}: durations {badd[:4]} outside the generator's range {gen['duration_range']}")
     lens = {len(job) for job in w.jobs}
     ctx.check(len(lens) == 1 and gen["num_machines"][0] <= next(iter(lens)) <= gen["num_machines"][1], "multi_env_instance_in_ranges",
               lambda: f"{when}: jobs have {sorted(lens)} operations, generator machine range {gen['num_machines']}")
